@@ -1,5 +1,6 @@
 import Mercure.Lemmas.Hub
 import Mercure.Lemmas.SysSafety
+import Mercure.Generated.Facts
 /-
   C15 — Closing the hub ends every stream and rejects later operations (operation-level part;
   the interleavings of an in-flight close are in the region-level model).
@@ -79,6 +80,12 @@ theorem region_closed_is_stable (σ : Sys.Sys) (i : Nat) (h : σ.tr.closedCh = t
     (Sys.step σ i).σ.tr.closedCh = true :=
   Sys.Safety.closed_is_stable σ i h
 
+/-- The obligation against /repo (regenerated from local.go / bolt.go on every run): `Close` walks the
+    whole subscriber list — the callback it gives to `Walk` is a function literal that only ever returns
+    `true` (`Walk` stops at the first `false`) — as the model's close frame, which visits every
+    registered subscriber, assumes. -/
+theorem repo_close_visits_every_subscriber : Facts.closeWalksAll = true := by decide
+
 end Mercure.C15
 
 #print axioms Mercure.C15.close_ends_registered
@@ -91,3 +98,4 @@ end Mercure.C15
 #print axioms Mercure.C15.region_close_ends_registered
 #print axioms Mercure.C15.region_after_close_rejected
 #print axioms Mercure.C15.region_closed_is_stable
+#print axioms Mercure.C15.repo_close_visits_every_subscriber
